@@ -164,6 +164,7 @@ func cmdCheck(argv []string) int {
 	timeout := 20
 	if tier == "thorough" {
 		timeout = 60
+		order = []string{"z3-new", "cvc5", "z3"}
 	}
 	opt := solveOpts{dir: qdir, order: order, timeoutS: timeout, seed: seed, jobs: 6}
 
@@ -352,6 +353,30 @@ func cmdCheck(argv []string) int {
 	for _, nd := range pc.NotDecided {
 		assumptions = append(assumptions, "not decided by this check: "+nd)
 	}
+	evidenceExtra = map[string]interface{}{}
+	if tier == "thorough" && len(viols) == 0 {
+		// the must-fail corpus: every deliberate or seeded break of this property must fail a named obligation
+		patches, _ := filepath.Glob(filepath.Join(vd, "selftest", "mutants", id, "*.patch"))
+		seeded, _ := filepath.Glob(filepath.Join(vd, "seeded", id+"-*", "patch.diff"))
+		patches = append(patches, seeded...)
+		sort.Strings(patches)
+		var killed, survived []map[string]string
+		for _, mp := range patches {
+			ok, detail := runMutant("/repo", mp, id, pc)
+			e := map[string]string{"change": strings.TrimPrefix(mp, vd+"/"), "detail": detail}
+			if ok {
+				killed = append(killed, e)
+			} else {
+				survived = append(survived, e)
+				fmt.Printf("WARNING: must-fail change not detected by the checks of %s: %s (%s)\n", id, e["change"], detail)
+			}
+		}
+		fmt.Printf("%s must-fail corpus: %d of %d changes fail a named obligation\n", id, len(killed), len(patches))
+		evidenceExtra["must_fail_corpus_size"] = len(patches)
+		evidenceExtra["must_fail_detected"] = killed
+		evidenceExtra["must_fail_not_detected"] = survived
+		wall = time.Since(start).Seconds()
+	}
 	writeEvidence(vd, id, tier, seed, all, results, funcs, inlined, contractsUsed, len(viols), wall, pc, assumptions, knownLines, specifiedNotProved, nObl, nDis)
 	for _, k := range knownLines {
 		fmt.Println(k)
@@ -445,6 +470,9 @@ func resolveFromFiles(obls []*Obligation, opt solveOpts) {
 	}
 }
 
+// evidenceExtra: additional coverage keys of the current run (thorough tier).
+var evidenceExtra map[string]interface{}
+
 func writeEvidence(vd, id, tier string, seed int, all []EvObl, results []*HarnessResult, funcs, inlined, used map[string]bool, nviol int, wall float64, pc PropConfig, assumptions []string, extra ...interface{}) {
 	var knownLines, snp []string
 	nObl, nDis := 0, 0
@@ -512,6 +540,9 @@ func writeEvidence(vd, id, tier string, seed int, all []EvObl, results []*Harnes
 		"assumptions": assumptions,
 		"wall_s":      wall,
 		"violations":  nviol,
+	}
+	for k, v := range evidenceExtra {
+		ev["coverage"].(map[string]interface{})[k] = v
 	}
 	data, _ := json.MarshalIndent(ev, "", " ")
 	os.WriteFile(filepath.Join(vd, "evidence", id+".json"), data, 0o644)
